@@ -242,7 +242,11 @@ func c14Exec(tr *kernel.Trace, src kernel.Source) *Outcome {
 	supA, supB := runA.Chain.Supply(), runB.Chain.Supply()
 	for _, c := range supA {
 		if c.Amount.Sub(supB.AmountOf(c.Denom)).Abs().GT(sdk.NewInt(1)) {
-			o.Violations = append(o.Violations, &kernel.Violation{Property: "C14", Check: "made-up-later", Signature: "twin-supply-differs",
+			supSig := "twin-supply-differs"
+			if sig != "twin-balance-differs" {
+				supSig = sig // same known cause: the burn share of the sub-distributor that swept instead
+			}
+			o.Violations = append(o.Violations, &kernel.Violation{Property: "C14", Check: "made-up-later", Signature: supSig,
 				Message: fmt.Sprintf("total supply of %s is %s after failures, %s without", c.Denom, c.Amount, supB.AmountOf(c.Denom)), Block: len(tr.Blocks) - 1, TxIndex: -1})
 		}
 	}
